@@ -40,6 +40,7 @@ type SimConfig struct {
 	DisableSlave bool
 	Conns        int
 	SndBuf       int // SO_SNDBUF for the proxy side of client sockets (0 = default)
+	RetryMs      int // server_retry_timeout (0 = 1000)
 }
 
 func NewSimEnv(cfg SimConfig) (*SimEnv, error) { return NewSimEnvW(cfg, 0) }
@@ -48,7 +49,11 @@ func NewSimEnv(cfg SimConfig) (*SimEnv, error) { return NewSimEnvW(cfg, 0) }
 func NewSimEnvW(cfg SimConfig, writeBufferCap int) (*SimEnv, error) {
 	server.VerifResetAuthCmd()
 	server.VerifResetScratch() // package-level scratch slices as in a fresh process
-	h := server.NewListenServer(server.WithRedisPassword(cfg.Passwd), server.WithDisableRedisSlave(cfg.DisableSlave), server.WithServerRetryTimeout(1000))
+	retry := cfg.RetryMs
+	if retry < 1 {
+		retry = 1000
+	}
+	h := server.NewListenServer(server.WithRedisPassword(cfg.Passwd), server.WithDisableRedisSlave(cfg.DisableSlave), server.WithServerRetryTimeout(retry))
 	h.OnBoot(core.Engine{})
 	env, err := core.VerifNewEnv(core.VerifOptions{MsgMaxLength: cfg.Limit, RequestTimeoutMs: cfg.TimeoutMs, ServerConnections: cfg.Conns, Passwd: cfg.Passwd, WriteBufferCap: writeBufferCap}, h)
 	if err != nil {
